@@ -735,10 +735,12 @@ pub(super) fn write_description(
     let tabs = tab(options).repeat(level);
 
     if options.prefer_single_line_descriptions && !description.contains('\n') {
-        let description = description.replace('"', r#"\""#);
+        let description = escape_string(description);
         writeln!(sdl, "{tabs}\"{description}\"").ok();
     } else {
-        let description = description.replace('\n', &format!("\n{tabs}"));
+        let description = description
+            .replace("\"\"\"", "\\\"\"\"")
+            .replace('\n', &format!("\n{tabs}"));
         writeln!(sdl, "{tabs}\"\"\"\n{tabs}{description}\n{tabs}\"\"\"").ok();
     }
 }
